@@ -729,7 +729,7 @@ Definition op_dom (st : rstate) (o : op) : bool :=
   | OBit _ n => (0 <=? n) && (n <? 4194304)
   | OLStruct h i | OPLAt h i | OBitAt h i => in_len st h i
   | OUintAt h i n => in_len st h i && in_width n
-  | ORoot | OText _ | OData _ | OInfo _ | ORLimit | OWalk _ _ _ _ | OReset _ => true
+  | ORoot | OText _ | OData _ | OInfo _ | ORLimit | OWalk _ _ _ _ | OReset _ | OResetLimit _ | OUnread _ => true
   end.
 
 Fixpoint run_dom (c : config) (fx : fixes) (m : segs) (st : rstate) (ops : list op) : bool :=
@@ -818,6 +818,9 @@ Proof.
     split; [exact Hwf|exact H].
   - (* reset: the handle pool is emptied *)
     split; [constructor|]. cbn [snd oval_ok]. discriminate.
+  - (* ResetReadLimit / Unread: handles unchanged *)
+    split; [exact Hwf|]. cbn [snd oval_ok]. discriminate.
+  - split; [exact Hwf|]. cbn [snd oval_ok]. discriminate.
 Qed.
 
 (* All read-side API call sequences: no observation is a panic and every handle ever
